@@ -2265,8 +2265,17 @@ void mmd_export_token_latex_tt(DString * out, const char * source, token * t, sc
 		case HASH5:
 		case HASH6:
 		case TEXT_HASH:
-			print_const("\\");
-			print_token(t);
+
+			// Escape every '#' of the token (it may hold several, plus
+			// trailing blanks)
+			for (size_t i = 0; i < t->len; ++i) {
+				if (source[t->start + i] == '#') {
+					print_const("\\#");
+				} else {
+					print_char(source[t->start + i]);
+				}
+			}
+
 			break;
 
 		case HTML_ENTITY:
